@@ -64,6 +64,7 @@ class Check:
         self.witnesses = []
         self.samples = []
         self.violations = []       # replayed, not known
+        self.mismatches = []
         self.known_hits = []
         self.notes = []
         self.bounds = {}
@@ -97,9 +98,11 @@ class Check:
         import copy
         c = copy.copy(self)
         c.obligations, c.witnesses, c.samples, c.violations, c.known_hits, c.notes = [], [], [], [], [], []
+        c.mismatches = []
         c.solver_time, c.replayed, c.paths = 0.0, 0, 0
         c.cross = {'cvc5': 0, 'z3-4.8': 0, 'disagreements': 0}
         c._ex0 = dict(self.ex.stats); c._fn0 = set(self.ex.fns_executed); c._m0 = set(self.ex.models_used)
+        c._u0 = len(self.ex.unsupported_paths)
         return c
 
     def summary(self):
@@ -107,6 +110,7 @@ class Check:
         return {'obligations': self.obligations, 'witnesses': self.witnesses, 'samples': self.samples, 'violations': self.violations,
                 'known_hits': self.known_hits, 'solver_time': self.solver_time, 'replayed': self.replayed, 'paths': self.paths,
                 'cross': self.cross, 'fns': sorted(ex.fns_executed), 'models': sorted(ex.models_used),
+                'unsupported': ex.unsupported_paths[getattr(self, '_u0', 0):], 'mismatches': self.mismatches,
                 'stats': {k: ex.stats[k] - self._ex0.get(k, 0) for k in ex.stats}}
 
     def absorb(self, s):
@@ -116,6 +120,8 @@ class Check:
         self.solver_time += s['solver_time']; self.replayed += s['replayed']; self.paths += s['paths']
         for k in self.cross: self.cross[k] += s['cross'][k]
         self.ex.fns_executed |= set(s['fns']); self.ex.models_used |= set(s['models'])
+        self.ex.unsupported_paths += s.get('unsupported', [])
+        self.mismatches += s.get('mismatches', [])
         for k, v in s['stats'].items(): self.ex.stats[k] += v
 
     # ---- obligations
@@ -127,7 +133,7 @@ class Check:
         self.solver_time += dt
         return r, dt
 
-    def prove(self, name, pc, neg_goal, timeout_ms=120000, extra=()):
+    def prove(self, name, pc, neg_goal, timeout_ms=120000, extra=(), prefer=()):
         """discharge: pc ∧ ¬goal must be unsat.  Returns None if proved, else the z3 model."""
         s = z3.Solver()
         s.add(lit_axioms()); s.add(list(pc)); s.add(list(extra)); s.add(neg_goal)
@@ -139,7 +145,13 @@ class Check:
         if self.tier == 'thorough' or os.environ.get('VERIF_CROSS'):
             self._cross_check(s, name, str(r))
         if r == z3.sat:
-            return s.model()
+            m = s.model()
+            if prefer:
+                # a counterexample exists; prefer one that is easy to replay (does not change the verdict)
+                s.push(); s.add(list(prefer))
+                if s.check() == z3.sat: m = s.model()
+                s.pop()
+            return m
         return None
 
     def witness(self, name, pc, goal, timeout_ms=120000):
@@ -182,7 +194,9 @@ class Check:
         with open(path, 'w') as f:
             json.dump({'property': self.pid, 'what': desc, 'role': role, 'case': replay_case}, f, indent=1)
         if not reproduced:
-            raise Inconclusive(f'encoding-mismatch: solver model does not reproduce natively: {desc} ({path})')
+            # the encoding or a library model is wrong (or the model cannot be replayed): never an alarm
+            self.mismatches.append(f'encoding-mismatch: solver model does not reproduce natively: {desc} ({path})')
+            return
         for k in self.known:
             if k.get('status') == 'open' and role is not None and k.get('role') == role:
                 print(f'KNOWN-FINDING: property={self.pid} {k.get("what", desc)}')
@@ -229,10 +243,17 @@ class Check:
         os.makedirs(os.path.join(VERIF, 'evidence'), exist_ok=True)
         with open(os.path.join(VERIF, 'evidence', f'{self.pid}.json'), 'w') as f:
             json.dump(ev, f, indent=1, default=str)
+        unsup = ex.unsupported_paths if ex else []
+        if unsup: cov['unsupported_paths'] = {'count': len(unsup), 'first': unsup[0]}
         print(f'[{self.pid}] tier={self.tier} paths={cov["states"]} obligations={n_ob} discharged={cov["discharged"]} '
               f'witnesses={len(self.witnesses)} replayed={self.replayed} solver={cov["solver_time_s"]}s wall={ev["wall_s"]}s '
               f'violations={len(self.violations)} known={len(self.known_hits)}')
-        return 1 if self.violations else 0
+        if self.violations: return 1
+        if self.mismatches:
+            raise Inconclusive(f'{len(self.mismatches)} solver model(s) did not reproduce natively; first: {self.mismatches[0]}')
+        if unsup:
+            raise Inconclusive(f'{len(unsup)} execution path(s) hit an unsupported construct; first: {unsup[0]}')
+        return 0
 
 
 def load_known(pid):
